@@ -43,6 +43,8 @@ def run(rep, ctx, tier):
             n = R4.run_positional(rep, ctx, a, "R4a")
         # the verdicts of the per-point checks are accumulated, not overwritten by the last one
         R1D.run_last_value(rep, ctx, a, "R1L")
+        # every claim a batch loop extracts takes part in the combined equation on every path to the next claim
+        R1D.run_values(rep, ctx, a, "R1d")
         if n < 1:
             rep.add("R4a", "%s:floor" % key, False,
                     "neither a zip of the proof list against the claims nor a positional read of it found in %s (floor 1): the rule would pass vacuously" % key,
